@@ -44,6 +44,22 @@ GS == ChainGraph([ks |-> <<"star">>, place |-> "shared", used |-> FALSE, mid |->
 \* the same with m1 declaring v2, c2, bump2
 GT == ChainGraph([ks |-> <<"star">>, place |-> "shared", used |-> FALSE, mid |-> FALSE, ov |-> "b", dyn |-> FALSE])
 
+\* wrap kinds: e1 imports m1 by statement, e2 require()s it: m1 is wrapped lazily, lives in the shared chunk {1,2}, and
+\* both entry chunks import its wrapper init_m1
+GW == WrapGraph([sk |-> "esm", r |-> <<"static", "req">>])
+LW == Compute(GW)
+NoWrapperImport == [LW EXCEPT !.chunks[{1}].importsFrom =
+                      {i \in @ : ~\E x \in LW.chunks[{1, 2}].exports : x.alias = i.alias /\ x.name = "wrapper"}]
+GWn == WrapGraph([sk |-> "esm", r |-> <<"static", "static">>])
+GWc == WrapGraph([sk |-> "cjs", r |-> <<"static", "static">>])
+GWv == WrapGraph([sk |-> "esm", r |-> <<"viaw", "viareq">>])
+\* e1 import()s the page p1 (ts loader), which imports a style sheet: p1 has a JS chunk {3} and a CSS chunk CssId(3)
+GP == LoaderGraph([ldr |-> "ts", css |-> "direct", also |-> "no", ecss |-> FALSE, json |-> FALSE])
+LP == Compute(GP)
+DynToCss == [LP EXCEPT !.chunks[{1}].imports = (@ \ {[chunk |-> {3}, kind |-> "dynamic"]}) \cup {[chunk |-> CssId(3), kind |-> "dynamic"]}]
+NoCssChunk == [LP EXCEPT !.chunks = [c \in DOMAIN LP.chunks \ {CssId(3)} |-> LP.chunks[c]]]
+CssInJsChunk == [LP EXCEPT !.chunks[{3}].files = @ \cup {6}]
+
 \* a trivial behaviour (TLC needs one): the checks are the assumptions below
 SanityInit == /\ label = "sanity" /\ g = G0 /\ meta = <<>> /\ phase = "linked" /\ L = L0 /\ designFailing = {} /\ loaded = <<>> /\ fired = {}
               /\ evSrc = {} /\ evCh = {} /\ runs = [f \in FileIds(G0) |-> 0] /\ bad = FALSE
@@ -62,6 +78,16 @@ ASSUME Failing(ComputeWith(GN, TRUE)) = {}
 ASSUME "ImportsResolveToExports" \in Failing(ComputeWith(GN, FALSE))
 ASSUME Failing(LC) = {} /\ LC.chunks[{1}].importsFrom # {}
 ASSUME "EntryExportsImported" \in Failing(NoEntryImports)
+ASSUME Failing(LW) = {} /\ UsesAreImportedAndInitialised(LW) /\ LW.files[3].wrap = "esm"
+ASSUME \E x \in LW.chunks[{1, 2}].exports : x.alias = "init_m1" /\ x.name = "wrapper"
+ASSUME ~UsesAreImportedAndInitialised(NoWrapperImport) /\ "CrossChunkUsesImported" \in Failing(NoWrapperImport)
+ASSUME Compute(GWn).files[3].wrap = "none" /\ Compute(GWc).files[3].wrap = "cjs"
+ASSUME \E x \in Compute(GWc).chunks[{1, 2}].exports : x.alias = "require_m1"
+ASSUME Compute(GWv).files[3].wrap = "esm" /\ Compute(GWv).files[4].wrap = "esm"
+ASSUME Failing(LP) = {} /\ CssId(3) \in ChunkIds(LP) /\ {3} \in ChunkIds(LP) /\ LP.chunks[CssId(3)].files = {6}
+ASSUME "DynamicImportTargetsJS" \in Failing(DynToCss)
+ASSUME "TwoChunkRule" \in Failing(NoCssChunk) /\ "ChunkPartition" \in Failing(NoCssChunk)
+ASSUME "TwoChunkRule" \in Failing(CssInJsChunk)
 ASSUME {x.alias : x \in TableOf(GS, 1)} = {"v", "c", "bump", "peek_e1", "poke_e1"}
 ASSUME \A x \in TableOf(GS, 1) : x.file = 1
 ASSUME {x.alias : x \in TableOf(GT, 1)} = {"v", "c", "bump", "v2", "c2", "bump2", "peek_e1", "poke_e1"}
